@@ -189,7 +189,11 @@ def run(ctx):
     R = Result('C04')
     items = [('%s/%s' % p, p, '%s-%d' % (p[0], ctx.seed)) for p in sample_pairs(ctx, ctx.n(15, 10 ** 6))]
     for i in range(ctx.n(30, 1500)):
-        items.append(('gen%d' % i, genbasis.gen_basis(ctx.rng, kinds=(['ecpgap', 'ecpsingle', 'plain'] if i % 6 == 5 else None)), 'g%d' % i))
+        g = genbasis.gen_basis(ctx.rng, kinds=(['ecpgap', 'ecpsingle', 'plain'] if i % 6 == 5 else None))
+        if i % 3 == 1:
+            # the role is free text for most writers but steers some (Q-Chem: $basis / $aux_basis); an ECP next to a fitting role is legal
+            g['role'] = ctx.rng.choice(['jkfit', 'rifit', 'guess', 'admmfit'])
+        items.append(('gen%d' % i, g, 'g%d' % i))
     reqs, meta = [], []
     B = 450
     for i in range(0, len(items), B):
